@@ -5,7 +5,7 @@ import json
 from unittest import mock
 
 from harness import cryptoval, refacc
-from harness.common import Ctx, Driver, compare_with_model, hx, load_corpus, unhx
+from harness.common import Ctx, Driver, compare_with_model, hx, load_corpus, shrink_list, unhx
 
 import aiohomekit.crypto.srp as srpmod
 from aiohomekit.crypto.srp import SrpClient
@@ -17,6 +17,13 @@ RULE = ("random setup codes / salts (random, all-zero, leading-zero) / ephemeral
         "at every M1, over histories with several M1/M2 before the code is used (wrong code then right code on the same discovery, link drop while M2/M3/M4/M5 is in flight followed by "
         "the library's own retry or a restart, start twice, two discoveries, pair - reset - pair; fixed list plus random compositions; MTUs, TLV fragmentation, TCP segmentation drawn): "
         "A / M1 / K judged against the exchange the accessory is running NOW. "
+        "WIDE secrets: client secret a and accessory secret b drawn over the whole range (1, 2, tiny, 5^a < N, 2^k-1/2^k/2^k+1, 128..2048 bits, 3072 bits below N, N - 2^1024.., N - 2^k, N - small, "
+        "N-2, N-1, (N-1)/2, N, N+1, 2^3072-1, 2^3072.., 4096 bits, r + j(N-1)), the client's injected the way the tests do (subclass overriding generate_private_key), setup codes and 16-byte salts "
+        "of every shape, right and wrong code, directly and through perform_pair_setup_part1/part2. "
+        "ACCESSOR HISTORIES: on one SrpClient object (one to three clients interleaved) every public accessor - get_public_key(_bytes), get_shared_secret(_bytes), get_session_key(_bytes), "
+        "get_proof(_bytes), verify_servers_proof(_bytes) with the right and a bit-flipped proof, set_salt (bytearray / int) and set_server_public_key (bytes / bytearray) before use and repeated with the "
+        "same value - in every order of the four value families, repeated, plus random compositions; EVERY value returned is compared with the independent server's value for that exchange; the same "
+        "on the client the pair-setup generators leave behind (between M3 and M4, after M5, after M6; two generators interleaved). "
         "non-trivial = distinct (which values had a leading zero, code right/wrong, proof mutation class; transport, history, outcomes)")
 TRUSTED = ["hashlib.sha512 and Python big-int pow in the reference server (harness/refacc.py, RFC 5054 formulas written out)", "Lean Real SHA-512 (validated differentially each run)"]
 ASSUMPTIONS = ["SRP hardness: a wrong setup code gives a different shared secret (not proved; exercised by the wrong-code stream)",
@@ -26,18 +33,32 @@ ASSUMPTIONS = ["SRP hardness: a wrong setup code gives a different shared secret
 EXPLANATION = "Lean theorems C02_* (group constants, k = H(PAD N|PAD g) evaluated in the kernel, padding for all n, shared-secret agreement and value equality for any hash function); differential tie on the public SrpClient API"
 
 
-def mk_client(pin: str, a_bytes: bytes, salt: bytes, Bb: bytes) -> SrpClient:
+def client_class(a: int):
+    """the tests' own way of pinning the ephemeral secret (tests/test_crypto_srp.py): a subclass overriding generate_private_key"""
+    class FixedSecretSrpClient(SrpClient):
+        def generate_private_key(self):
+            return a
+    return FixedSecretSrpClient
+
+
+def new_client(pin: str, a_bytes: bytes, inject: str = "urandom") -> SrpClient:
+    if inject == "subclass":
+        return client_class(int.from_bytes(a_bytes, "big"))("Pair-Setup", pin)
     with mock.patch.object(srpmod.os, "urandom", lambda n: a_bytes):
-        c = SrpClient("Pair-Setup", pin)
+        return SrpClient("Pair-Setup", pin)
+
+
+def mk_client(pin: str, a_bytes: bytes, salt: bytes, Bb: bytes, inject: str = "urandom") -> SrpClient:
+    c = new_client(pin, a_bytes, inject)
     c.set_salt(bytearray(salt))
     c.set_server_public_key(bytes(Bb))
     return c
 
 
-def exchange(ctx, pin_acc, pin_ctl, salt, b, a_bytes, want_lead=None):
+def exchange(ctx, pin_acc, pin_ctl, salt, b, a_bytes, want_lead=None, inject="urandom"):
     srv = refacc.SrpServer(pin_acc, salt, b)
     Bb = refacc.PAD(srv.B)
-    c = mk_client(pin_ctl, a_bytes, salt, Bb)
+    c = mk_client(pin_ctl, a_bytes, salt, Bb, inject)
     A_b = bytes(c.get_public_key_bytes())
     M1 = bytes(c.get_proof_bytes())
     K = bytes(c.get_session_key_bytes())
@@ -46,7 +67,28 @@ def exchange(ctx, pin_acc, pin_ctl, salt, b, a_bytes, want_lead=None):
     return srv, c, A_b, M1, K, Bb, lead
 
 
-def through_generators(ctx, pin, salt, b, a_bytes, kind):
+def client_oracles(ctx, case, srv, c, A_b, M1, K, lead):
+    """the oracles of one direct exchange (streams 'client'): everything the client returned against the reference server"""
+    a = int.from_bytes(unhx(case["a"]), "big")
+    right = case["pin_acc"] == case["pin_ctl"]
+    lead = f"{lead}; {case.get('kind')}: client secret a of {a.bit_length()} bits, accessory secret b of {int(case['b']).bit_length()} bits, setup code {case['pin_ctl']}, salt {case['salt']}"
+    if A_b != refacc.PAD(pow(refacc.G, a, refacc.N3072)):
+        ctx.violation("client/A", f"client public value is not PAD(g^a mod N) ({case.get('kind')}: secret a of {a.bit_length()} bits)", case)
+    if right:
+        if M1 != srv.M1:
+            ctx.violation("client/M1", f"accessory rejects the client proof (leading zeros: {lead})", case)
+        if K != srv.K:
+            ctx.violation("client/K", f"session keys differ (leading zeros: {lead})", case)
+        if not c.verify_servers_proof_bytes(srv.M2):
+            ctx.violation("client/M2-rejected", f"client rejects the accessory's correct proof (leading zeros: {lead})", case)
+    else:
+        if M1 == srv.M1:
+            ctx.violation("client/wrong-code-accepted", "a wrong setup code produced a proof the accessory accepts", case)
+        if c.verify_servers_proof_bytes(srv.M2):
+            ctx.violation("client/wrong-code-M2", "client with a wrong code accepts the accessory's proof", case)
+
+
+def through_generators(ctx, pin, salt, b, a_bytes, kind, inject="urandom"):
     """the same exchange as the library itself runs it: perform_pair_setup_part1 takes salt and B from the accessory's M2,
     part2 sends A and the proof, checks the accessory's proof and then USES the session key (M5 is sealed under a key
     derived from it).  A conformant accessory - the reference server plus HKDF/ChaCha20-Poly1305 over the full 64-byte K -
@@ -59,6 +101,8 @@ def through_generators(ctx, pin, salt, b, a_bytes, kind):
     srv = refacc.SrpServer(pin, salt, b)
     Bb = refacc.PAD(srv.B)
     case = {"stream": "generators", "kind": kind, "pin": pin, "salt": hx(salt), "b": str(b), "a": hx(a_bytes)}
+    if inject != "urandom":
+        case["inject"] = inject
     ctx.evaluations += 1
     ctx.nontrivial.add(("generators", kind, salt == bytes(16), salt[0] == 0))
     ctx.dist["generators:" + kind] += 1
@@ -73,9 +117,16 @@ def through_generators(ctx, pin, salt, b, a_bytes, kind):
         return ctx.violation("generators/part1", f"part 1 refuses the accessory's M2 (salt {hx(salt)}): {type(e).__name__}: {e}", case)
     if got_salt != salt or got_B != Bb:
         return ctx.violation("generators/part1", "part 1 hands on a salt or public value other than the accessory's", case)
-    with mock.patch.object(srpmod.os, "urandom", lambda n: a_bytes):
-        g2 = P.perform_pair_setup_part2(pin, "ctl-uuid", bytearray(got_salt), bytearray(got_B))
-        m3 = dict((k, bytes(v)) for k, v in g2.send(None)[0])
+    # the secret is pinned through os.urandom, or the way the tests do it: a subclass overriding generate_private_key
+    pin_secret = mock.patch.object(P, "SrpClient", client_class(int.from_bytes(a_bytes, "big"))) if inject == "subclass" and hasattr(P, "SrpClient") else mock.patch.object(srpmod.os, "urandom", lambda n: a_bytes)
+    try:
+        with pin_secret:
+            g2 = P.perform_pair_setup_part2(pin, "ctl-uuid", bytearray(got_salt), bytearray(got_B))
+            m3 = dict((k, bytes(v)) for k, v in g2.send(None)[0])
+    except Exception as e:  # noqa: BLE001
+        return ctx.violation("generators/M3", f"part 2 cannot produce M3 for the accessory's salt and public value: {type(e).__name__}: {e}", case)
+    if m3.get(3) != refacc.PAD(pow(refacc.G, int.from_bytes(a_bytes, "big"), refacc.N3072)):
+        return ctx.violation("generators/A", "the public value in M3 is not PAD(g^a mod N) for the secret the controller drew", case)
     srv.on_A(m3[3])
     if m3[3] != refacc.PAD(srv.A) or m3[4] != srv.M1:
         return ctx.violation("generators/M3", "the accessory does not accept the controller's public value / proof as sent in M3", case)
@@ -679,6 +730,503 @@ def transports(ctx):
             ctx.sample(dict(case, outcomes=info["outcomes"]), limit=8)
 
 
+# ---------------------------------------------------------------------------------------------------------------------
+# the whole range of ephemeral secrets, setup codes and salts of every shape
+# ---------------------------------------------------------------------------------------------------------------------
+def secret_classes():
+    """name -> draw(rng): the classes of ephemeral secrets the quantifier ('all client and server ephemeral secrets')
+    ranges over.  Nothing in SRP-6a restricts the secret to the size the library happens to generate: a conformant peer
+    computes g^a / (A v^u)^b for whatever integer was drawn."""
+    N = refacc.N3072
+    top = 1 << 3072
+    return {
+        "one": lambda r: 1,
+        "two-three": lambda r: r.choice([2, 3]),
+        "tiny": lambda r: r.randrange(4, 1 << 16),
+        "unreduced-A": lambda r: r.randrange(1, 1323),  # 5^a < N: the public value has (many) leading zero bytes
+        "pow2-edge": lambda r: (1 << r.choice([8, 16, 64, 127, 128, 129, 255, 256, 511, 512, 1023, 1024, 1025, 2048, 3071])) + r.choice([-1, 0, 1]),
+        "bits-128": lambda r: r.getrandbits(128) | 1,
+        "bits-256": lambda r: r.getrandbits(256) | (1 << 255),
+        "bits-512": lambda r: r.getrandbits(512) | (1 << 511),
+        "bits-1024": lambda r: r.getrandbits(1024) | (1 << 1023),
+        "bits-2048": lambda r: r.getrandbits(2048) | (1 << 2047),
+        "bits-3072-below-N": lambda r: r.randrange(1 << 3071, N - (1 << 1040)),
+        "N-minus-1024-bits": lambda r: N - 2 - r.getrandbits(r.choice([1000, 1020, 1023, 1024, 1025, 1030])),
+        "N-minus-2^k": lambda r: N - (1 << r.choice([2, 8, 64, 128, 512, 900, 1000])),
+        "N-minus-small": lambda r: N - r.randrange(3, 1 << 16),
+        "N-2": lambda r: N - 2,
+        "N-1": lambda r: N - 1,
+        "half-order": lambda r: (N - 1) // 2 + r.choice([-1, 0, 1]),
+        "N": lambda r: N,
+        "N+small": lambda r: N + r.randrange(1, 1 << 16),
+        "2^3072-1": lambda r: top - 1,
+        "2^3072+": lambda r: top + r.choice([0, 1, r.getrandbits(128)]),
+        "bits-4096": lambda r: r.getrandbits(4096) | (1 << 4095),
+        "order-multiple+r": lambda r: (N - 1) * r.randrange(1, 4) + (r.getrandbits(128) | 1),
+    }
+
+
+AT_OR_ABOVE_N = ["N", "N+small", "2^3072-1", "2^3072+", "bits-4096", "order-multiple+r"]
+TOP_OF_RANGE = ["N-2", "N-minus-small", "N-minus-2^k"]
+
+
+def draw_pin(rng):
+    """setup codes: the usual ones, any ddd-dd-ddd, the ones of one repeated digit, and the code typed without dashes"""
+    d = lambda n: "".join(rng.choice("0123456789") for _ in range(n))  # noqa: E731
+    k = rng.randrange(8)
+    if k < 2:
+        return rng.choice(["031-45-154", "111-22-333", "000-00-000", "987-65-432"])
+    if k < 6:
+        return f"{d(3)}-{d(2)}-{d(3)}"
+    if k == 6:
+        c = rng.choice("0123456789")
+        return f"{c * 3}-{c * 2}-{c * 3}"
+    return d(8)
+
+
+def other_pin(rng, pin):
+    """a wrong code: one digit changed, or another code altogether"""
+    if rng.random() < 0.5:
+        i = rng.choice([j for j, ch in enumerate(pin) if ch.isdigit()])
+        return pin[:i] + rng.choice([c for c in "0123456789" if c != pin[i]]) + pin[i + 1:]
+    while True:
+        p = draw_pin(rng)
+        if p != pin:
+            return p
+
+
+def draw_salt(rng):
+    rb = lambda n: bytes(rng.randrange(256) for _ in range(n))  # noqa: E731
+    k = rng.randrange(9)
+    if k < 2:
+        return rb(16)
+    if k == 2:
+        return bytes(16)
+    if k == 3:
+        z = rng.randrange(1, 16)
+        return bytes(z) + bytes([rng.randrange(1, 256)]) + rb(15 - z)
+    if k == 4:
+        z = rng.randrange(1, 16)
+        return rb(16 - z) + bytes(z)
+    if k == 5:
+        return b"\xff" * 16
+    if k == 6:
+        return bytes(15) + bytes([rng.randrange(1, 256)])
+    if k == 7:
+        return bytes([0x80]) + bytes(15)
+    return b"\0" + rb(15)
+
+
+def min_bytes(n: int) -> bytes:
+    return n.to_bytes(max((n.bit_length() + 7) // 8, 1), "big")
+
+
+# ---------------------------------------------------------------------------------------------------------------------
+# histories of accessor calls on one client object: every value, every time it is returned, against the reference server
+# ---------------------------------------------------------------------------------------------------------------------
+FAMILIES = {"S": ["S", "Sb"], "K": ["K", "Kb"], "M": ["M", "Mb"], "V": ["V", "Vb"]}
+CALLS = {"A": "get_public_key()", "Ab": "get_public_key_bytes()", "S": "get_shared_secret()", "Sb": "get_shared_secret_bytes()", "K": "get_session_key()",
+         "Kb": "get_session_key_bytes()", "M": "get_proof()", "Mb": "get_proof_bytes()", "V": "verify_servers_proof(M2)", "Vb": "verify_servers_proof_bytes(M2)",
+         "Vx": "verify_servers_proof(M2 with one bit flipped)", "Vbx": "verify_servers_proof_bytes(M2 with one bit flipped)",
+         "salt": "set_salt(bytearray)", "salt-int": "set_salt(int)", "B": "set_server_public_key(bytes)", "B-ba": "set_server_public_key(bytearray)", "new": "SrpClient(...)"}
+NEEDS_BOTH = {"S", "Sb", "K", "Kb", "M", "Mb", "V", "Vb", "Vx", "Vbx"}
+
+
+def reference(ex):
+    """the independent accessory's values for one exchange {pin_acc, pin_ctl, salt, b, a}; nothing of the client goes in"""
+    salt, a = unhx(ex["salt"]), int(ex["a"])
+    srv = refacc.SrpServer(ex["pin_acc"], salt, int(ex["b"]))
+    A = pow(refacc.G, a, refacc.N3072)
+    srv.on_A(refacc.PAD(A))
+    return {"srv": srv, "salt": salt, "a": a, "A": A, "Ab": refacc.PAD(A), "Bb": refacc.PAD(srv.B), "S": srv.S, "Sb": refacc.PAD(srv.S), "K": int.from_bytes(srv.K, "big"), "Kb": srv.K,
+            "M": int.from_bytes(srv.M1, "big"), "Mb": srv.M1, "M2": srv.M2, "right": ex["pin_acc"] == ex["pin_ctl"]}
+
+
+def short(v):
+    if isinstance(v, (bytes, bytearray)):
+        return f"{len(v)} bytes {hx(bytes(v)[:8])}.."
+    if isinstance(v, int) and not isinstance(v, bool):
+        return f"int {hex(v)[:20]}.. ({v.bit_length()} bits)"
+    return repr(v)
+
+
+def apply_op(c, op, ref):
+    """ONE public call on the client, judged against the independent server's value for the same exchange
+    -> None | (signature tail, what)"""
+    name = op[0]
+    try:
+        if name == "salt":
+            return c.set_salt(bytearray(ref["salt"]))
+        if name == "salt-int":
+            return c.set_salt(int.from_bytes(ref["salt"], "big"))
+        if name == "B":
+            return c.set_server_public_key(bytes(ref["Bb"]))
+        if name == "B-ba":
+            return c.set_server_public_key(bytearray(ref["Bb"]))
+        if name in ("V", "Vb", "Vx", "Vbx"):
+            m = bytearray(ref["M2"])
+            if name in ("Vx", "Vbx"):
+                m[op[1] // 8] ^= 1 << (op[1] % 8)
+            got = c.verify_servers_proof(int.from_bytes(m, "big")) if name in ("V", "Vx") else c.verify_servers_proof_bytes(bytes(m))
+        else:
+            got = {"A": c.get_public_key, "Ab": c.get_public_key_bytes, "S": c.get_shared_secret, "Sb": c.get_shared_secret_bytes, "K": c.get_session_key,
+                   "Kb": c.get_session_key_bytes, "M": c.get_proof, "Mb": c.get_proof_bytes}[name]()
+    except Exception as e:  # noqa: BLE001
+        return "exception", f"{CALLS[name]} raises {type(e).__name__}: {e}"
+    if name in ("V", "Vb"):
+        if ref["right"] and got is not True:
+            return "M2-rejected", f"{CALLS[name]} = {got!r}: the controller rejects the accessory's correct proof"
+        if not ref["right"] and got is not False:
+            return "wrong-code-M2", f"{CALLS[name]} = {got!r}: a controller with the wrong setup code accepts the accessory's proof"
+        return None
+    if name in ("Vx", "Vbx"):
+        if got is not False:
+            return "M2-forged-accepted", f"{CALLS[name]} (bit {op[1]}) = {got!r}: a proof that is not the accessory's is accepted"
+        return None
+    if isinstance(got, (bytes, bytearray)):
+        got = bytes(got)
+    want = ref[name]
+    if name in ("A", "Ab"):
+        if got != want or type(got) is not type(want):
+            return "A", f"{CALLS[name]} = {short(got)}, a conformant peer computes g^a mod N = {short(want)}"
+        return None
+    fam = {"S": "S", "Sb": "S", "K": "K", "Kb": "K", "M": "M1", "Mb": "M1"}[name]
+    if ref["right"]:
+        if got != want or type(got) is not type(want):
+            return fam, f"{CALLS[name]} = {short(got)}, the accessory computes {short(want)} for this exchange"
+    elif fam == "M1" and got == want:
+        return "wrong-code-accepted", f"{CALLS[name]}: a wrong setup code gives the proof the accessory accepts"
+    return None
+
+
+def valid_history(ops, n_clients):
+    """new first, values that need salt and B only once both are set (the API raises before that, which is not the property's business)"""
+    st = {}
+    for op in ops:
+        ci, name = op[0], op[1]
+        if name == "new":
+            if ci in st:
+                return False
+            st[ci] = set()
+        elif ci not in st:
+            return False
+        elif name in ("salt", "salt-int"):
+            st[ci].add("salt")
+        elif name in ("B", "B-ba"):
+            st[ci].add("B")
+        elif name in NEEDS_BOTH and st[ci] != {"salt", "B"}:
+            return False
+    return True
+
+
+def play_history(case):
+    """play {exchanges: [...], ops: [[client index, call, args..]]} on real SrpClient objects -> (problems [(signature, what)], calls judged)"""
+    refs = [reference(ex) for ex in case["exchanges"]]
+    clients, problems, judged, done = {}, [], 0, []
+    for n, op in enumerate(case["ops"], 1):
+        ci, name = op[0], op[1]
+        ex, ref = case["exchanges"][ci], refs[ci]
+        if name == "new":
+            try:
+                clients[ci] = new_client(ex["pin_ctl"], min_bytes(ref["a"]), ex.get("inject", "subclass"))
+            except Exception as e:  # noqa: BLE001
+                problems.append(("history/exception", f"op #{n}: SrpClient('Pair-Setup', {ex['pin_ctl']!r}) with secret of {ref['a'].bit_length()} bits raises {type(e).__name__}: {e}"))
+                break
+            done.append(f"{ci}:new")
+            continue
+        r = apply_op(clients[ci], op[1:], ref)
+        judged += name not in ("salt", "salt-int", "B", "B-ba")
+        if r is not None:
+            before = ", ".join(d.split(":", 1)[1] for d in done if d.startswith(f"{ci}:")) or "nothing"
+            problems.append(("history/" + r[0], f"op #{n} on client {ci} (secret a of {ref['a'].bit_length()} bits, setup code {ex['pin_ctl']}, salt {ex['salt']}): {r[1]}; calls on this client before: {before}"))
+        done.append(f"{ci}:{name}")
+    return problems, judged
+
+
+def setup_ops(rng, ci):
+    """construction and the two setters in either order, the public value read in between"""
+    ops = [[ci, "new"]]
+    sets = [[ci, rng.choice(["salt", "salt", "salt-int"])], [ci, rng.choice(["B", "B-ba"])]]
+    rng.shuffle(sets)
+    for s in sets:
+        if rng.random() < 0.3:
+            ops.append([ci, rng.choice(["A", "Ab"])])
+        ops.append(s)
+    return ops
+
+
+def random_body(rng, ci, n):
+    names = ["S", "Sb", "S", "Sb", "K", "Kb", "Kb", "M", "Mb", "Mb", "V", "Vb", "Vb", "Vx", "Vbx", "A", "Ab", "salt", "salt-int", "B", "B-ba"]
+    out = []
+    for _ in range(n):
+        nm = rng.choice(names)
+        out.append([ci, nm, rng.randrange(512)] if nm in ("Vx", "Vbx") else [ci, nm])
+    return out
+
+
+def interleave(rng, seqs):
+    seqs = [list(s) for s in seqs if s]
+    out = []
+    while seqs:
+        s = rng.choice(seqs)
+        out.append(s.pop(0))
+        if not s:
+            seqs.remove(s)
+    return out
+
+
+def draw_exchange(rng, classes, a_cls="bits-128", b_cls="bits-256", wrong=False, inject=None):
+    pin = draw_pin(rng)
+    return {"pin_acc": pin, "pin_ctl": other_pin(rng, pin) if wrong else pin, "salt": hx(draw_salt(rng)), "b": str(classes[b_cls](rng)), "a": str(classes[a_cls](rng)),
+            "a_class": a_cls, "b_class": b_cls, "inject": inject or rng.choice(["subclass", "urandom"])}
+
+
+def report_history(ctx, case, problems):
+    """one violation per signature, with the history shrunk to the calls that matter"""
+    seen = set()
+    for sig, what in problems:
+        if sig in seen:
+            continue
+        seen.add(sig)
+        small, text = case, what
+        if len(case["ops"]) > 4 and len(seen) <= 2:
+            def still(ops, sig=sig):
+                return valid_history(ops, len(case["exchanges"])) and any(s == sig for s, _ in play_history(dict(case, ops=ops))[0])
+            try:
+                ops = shrink_list(case["ops"], still, budget=40)
+                again = [w for s, w in play_history(dict(case, ops=ops))[0] if s == sig]
+                if again:
+                    small, text = dict(case, ops=ops, shrunk_from=len(case["ops"])), again[0]
+            except Exception:  # noqa: BLE001 - report the unshrunk history
+                pass
+        ctx.violation(sig, f"history {json.dumps(small['ops'])}: {text}", small)
+
+
+def accessor_histories(ctx):
+    """the property speaks about the client's VALUES, not about one order of asking for them"""
+    import itertools
+    rng = ctx.rng
+    classes = secret_classes()
+    plan = []
+    # every order of the four value families, each value asked for twice (once in each representation)
+    perms = list(itertools.permutations(["S", "K", "M", "V"]))
+    if not ctx.thorough():
+        first = rng.sample(perms, ctx.budget(3, 24))
+        perms = first + [tuple(reversed(p)) for p in first]  # a permutation and its reverse: every 'X before Y' in every run
+    for p in perms:
+        ex = draw_exchange(rng, classes)
+        flip = [rng.randrange(2) for _ in p]
+        body = [[0, FAMILIES[f][k]] for f, k in zip(p, flip)] + [[0, FAMILIES[f][1 - k]] for f, k in zip(p, flip)]
+        plan.append(("order-" + "".join(p), {"stream": "history", "exchanges": [ex], "ops": setup_ops(rng, 0) + body}))
+    # random compositions: one to three clients (different exchanges) interleaved, repeated reads, setters repeated with the same values
+    wide = [c for c in classes if c not in ("bits-128",)]
+    for i in range(ctx.budget(12, 400)):
+        k = rng.choice([1, 1, 2, 2, 3]) if ctx.thorough() else rng.choice([1, 1, 2])
+        exs, seqs = [], []
+        for ci in range(k):
+            a_cls = rng.choice(wide) if (i % 6 == 5 and ci == 0) else rng.choice(["bits-128", "bits-128", "bits-128", "bits-256", "tiny", "unreduced-A"])
+            exs.append(draw_exchange(rng, classes, a_cls=a_cls, wrong=rng.random() < 0.15, inject="subclass" if a_cls != "bits-128" else None))
+            seqs.append(setup_ops(rng, ci) + random_body(rng, ci, rng.randrange(3, 9)))
+        plan.append(("random-%d" % k, {"stream": "history", "exchanges": exs, "ops": interleave(rng, seqs)}))
+    for name, case in plan:
+        try:
+            problems, judged = play_history(case)
+        except Exception as e:  # noqa: BLE001
+            problems, judged = [("history/crash", f"the history could not be played: {type(e).__name__}: {e}")], 0
+        ctx.evaluations += max(judged, 1)
+        ctx.dist["history:" + (name if name.startswith("random") else "family-order")] += 1
+        ctx.dist["history:calls-judged"] += judged
+        for op in case["ops"]:
+            ctx.dist["history:call:" + op[1]] += 1
+        fams = [op[1][0] for op in case["ops"] if op[1] in NEEDS_BOTH]
+        ctx.nontrivial.add(("history", name, tuple(fams[:6]), len(case["exchanges"]), tuple(e["pin_acc"] == e["pin_ctl"] for e in case["exchanges"])))
+        if problems:
+            report_history(ctx, case, problems)
+    ctx.sample(plan[0][1])
+    # OBSERVATION only (no oracle: the library makes a new SrpClient for every part-2 run, and the property speaks of one
+    # exchange): what one client object answers when it is pointed at a SECOND exchange after values were read
+    try:
+        e1, e2 = draw_exchange(rng, classes, inject="subclass"), draw_exchange(rng, classes, inject="subclass")
+        e2 = dict(e2, a=e1["a"], pin_acc=e1["pin_acc"], pin_ctl=e1["pin_acc"])
+        e1 = dict(e1, pin_ctl=e1["pin_acc"])
+        r1, r2 = reference(e1), reference(e2)
+        c = new_client(e1["pin_ctl"], min_bytes(r1["a"]), "subclass")
+        for r in (r1, r2):
+            c.set_salt(bytearray(r["salt"]))
+            c.set_server_public_key(r["Bb"])
+            got = {"S": c.get_shared_secret() == r["S"], "K": bytes(c.get_session_key_bytes()) == r["Kb"], "M1": bytes(c.get_proof_bytes()) == r["Mb"]}
+        ctx.dist["history:retarget-observed"] += 1
+        if not all(got.values()):
+            ctx.notes.append("observation (not judged): one SrpClient object given a second salt / server public value after its values were read answers for the second exchange with "
+                             + ", ".join(f"{k} {'right' if v else 'STALE/wrong'}" for k, v in got.items()) + " (the session key is cached and the setters do not drop it); "
+                             "not reachable through perform_pair_setup_part2, which makes a new client per run")
+    except Exception as e:  # noqa: BLE001
+        ctx.notes.append(f"observation (not judged): pointing one SrpClient at a second exchange raises {type(e).__name__}: {e}")
+
+
+# ---------------------------------------------------------------------------------------------------------------------
+# the pair-setup generators, then accessor calls on the client they leave behind
+# ---------------------------------------------------------------------------------------------------------------------
+def play_generators(case):
+    """perform_pair_setup_part1 / part2 against the reference accessory for one or two exchanges run side by side (all
+    M3, then all M4/M5, then all M6); the SrpClient each part-2 generator holds is asked for its values between M3 and
+    M4 ('mid'), after M5 ('after') and after the generator has finished ('end') -> (problems, calls judged)"""
+    from cryptography.hazmat.primitives.asymmetric import ed25519
+    from cryptography.hazmat.primitives.ciphers.aead import ChaCha20Poly1305
+
+    import aiohomekit.protocol as P
+
+    from harness.c01 import L
+    problems, judged = [], 0
+    runs = []
+    for i, ex in enumerate(case["exchanges"]):
+        ref = reference(ex)
+        srv, salt, Bb = ref["srv"], ref["salt"], ref["Bb"]
+        tag = f"exchange {i} (setup code {ex['pin_ctl']}, salt {ex['salt']}, secret a of {ref['a'].bit_length()} bits, b of {int(ex['b']).bit_length()} bits)"
+        g1 = P.perform_pair_setup_part1(False)
+        g1.send(None)
+        try:
+            g1.send(L([(6, b"\x02"), (3, Bb), (2, salt)]))
+            problems.append(("gen-history/part1", f"{tag}: part 1 did not finish on a well-formed M2"))
+            continue
+        except StopIteration as st:
+            got_salt, got_B = bytes(st.value[0]), bytes(st.value[1])
+        except Exception as e:  # noqa: BLE001
+            problems.append(("gen-history/part1", f"{tag}: part 1 refuses the accessory's M2: {type(e).__name__}: {e}"))
+            continue
+        if got_salt != salt or got_B != Bb:
+            problems.append(("gen-history/part1", f"{tag}: part 1 hands on a salt or public value other than the accessory's"))
+            continue
+        try:
+            if ex.get("inject") == "subclass" and hasattr(P, "SrpClient"):
+                with mock.patch.object(P, "SrpClient", client_class(ref["a"])):
+                    g2 = P.perform_pair_setup_part2(ex["pin_ctl"], "ctl-uuid", bytearray(got_salt), bytearray(got_B))
+                    m3 = dict((k, bytes(v)) for k, v in g2.send(None)[0])
+            else:
+                with mock.patch.object(srpmod.os, "urandom", lambda n, v=min_bytes(ref["a"]): v):
+                    g2 = P.perform_pair_setup_part2(ex["pin_ctl"], "ctl-uuid", bytearray(got_salt), bytearray(got_B))
+                    m3 = dict((k, bytes(v)) for k, v in g2.send(None)[0])
+        except Exception as e:  # noqa: BLE001
+            problems.append(("gen-history/M3", f"{tag}: part 2 cannot produce M3: {type(e).__name__}: {e}"))
+            continue
+        judged += 1
+        if m3.get(3) != ref["Ab"]:
+            problems.append(("gen-history/A", f"{tag}: the public value in M3 ({short(m3.get(3))}) is not PAD(g^a mod N)"))
+        if ref["right"] and m3.get(4) != ref["Mb"]:
+            problems.append(("gen-history/M1", f"{tag}: the accessory rejects the proof in M3 ({short(m3.get(4))}, it computes {short(ref['Mb'])})"))
+        if not ref["right"] and m3.get(4) == ref["Mb"]:
+            problems.append(("gen-history/wrong-code-accepted", f"{tag}: a wrong setup code gave a proof the accessory accepts"))
+        frame = g2.gi_frame
+        held = [v for v in (frame.f_locals.values() if frame is not None else []) if isinstance(v, SrpClient)]
+        runs.append({"i": i, "ex": ex, "ref": ref, "tag": tag, "g2": g2, "client": held[0] if held else None, "alive": True, "calls": []})
+
+    where = {"mid": "between M3 and M4", "after": "after M5", "end": "after the generator has finished"}
+
+    def ask(run, phase):
+        nonlocal judged
+        c = run["client"]
+        if c is None:
+            return
+        for op in case.get(phase, {}).get(str(run["i"]), []):
+            r = apply_op(c, op, run["ref"])
+            judged += 1
+            if r is not None:
+                before = ", ".join(run["calls"]) or "none but the generator's own"
+                problems.append(("gen-history/" + r[0], f"{run['tag']}, on the client the part-2 generator holds, {where[phase]}: {r[1]}; harness calls on it before: {before}"))
+            run["calls"].append(op[0])
+
+    for run in runs:
+        ask(run, "mid")
+    for run in runs:
+        ref, srv, tag = run["ref"], run["ref"]["srv"], run["tag"]
+        if not ref["right"]:
+            try:
+                run["g2"].send(L([(6, b"\x04"), (7, b"\x02")]))
+            except Exception:  # noqa: BLE001 - the accessory said 'authentication failed'
+                pass
+            run["alive"] = False
+            continue
+        try:
+            m5 = dict((k, bytes(v)) for k, v in run["g2"].send(L([(6, b"\x04"), (4, srv.M2)]))[0])
+        except Exception as e:  # noqa: BLE001
+            problems.append(("gen-history/M4", f"{tag}: the accessory's correct proof is refused: {type(e).__name__}"))
+            run["alive"] = False
+            continue
+        judged += 1
+        ekey = refacc.hk(srv.K, b"Pair-Setup-Encrypt-Salt", b"Pair-Setup-Encrypt-Info")
+        try:
+            sub = refacc.untlv(ChaCha20Poly1305(ekey).decrypt(b"\0\0\0\0PS-Msg05", m5[5], b""))
+            cx = refacc.hk(srv.K, b"Pair-Setup-Controller-Sign-Salt", b"Pair-Setup-Controller-Sign-Info")
+            ed25519.Ed25519PublicKey.from_public_bytes(sub[3]).verify(sub[10], cx + sub[1] + sub[3])
+        except Exception:  # noqa: BLE001
+            problems.append(("gen-history/K", f"{tag}: the accessory cannot open / verify M5: the controller's session key is not the accessory's 64-byte K"))
+            run["alive"] = False
+    for run in runs:
+        ask(run, "after")
+    for run in runs:
+        if not run["alive"]:
+            continue
+        srv = run["ref"]["srv"]
+        ltsk = ed25519.Ed25519PrivateKey.from_private_bytes(refacc.H(b"acc-ltsk", run["ref"]["salt"])[:32])
+        ltpk = ltsk.public_key().public_bytes(**refacc.RAW)
+        acc_id = b"12:34:56:00:01:0A"
+        ekey = refacc.hk(srv.K, b"Pair-Setup-Encrypt-Salt", b"Pair-Setup-Encrypt-Info")
+        ax = refacc.hk(srv.K, b"Pair-Setup-Accessory-Sign-Salt", b"Pair-Setup-Accessory-Sign-Info")
+        enc = ChaCha20Poly1305(ekey).encrypt(b"\0\0\0\0PS-Msg06", refacc.tlv([(1, acc_id), (3, ltpk), (10, ltsk.sign(ax + acc_id + ltpk))]), b"")
+        try:
+            run["g2"].send(L([(6, b"\x06"), (5, enc)]))
+            problems.append(("gen-history/M6", f"{run['tag']}: part 2 did not finish on the accessory's M6"))
+        except StopIteration:
+            judged += 1
+        except Exception as e:  # noqa: BLE001
+            problems.append(("gen-history/M6", f"{run['tag']}: the accessory's M6 (sealed and signed under keys derived from K) is refused: {type(e).__name__}: {e}"))
+    for run in runs:
+        ask(run, "end")
+    return problems, judged, sum(1 for r in runs if r["client"] is not None)
+
+
+def generator_histories(ctx):
+    rng = ctx.rng
+    classes = secret_classes()
+    reads = ["S", "Sb", "K", "Kb", "M", "Mb", "A", "Ab", "V", "Vb", "Vx", "Vbx"]
+
+    def some(n):
+        out = []
+        for _ in range(n):
+            nm = rng.choice(reads)
+            out.append([nm, rng.randrange(512)] if nm in ("Vx", "Vbx") else [nm])
+        return out
+    plan = []
+    for i in range(ctx.budget(4, 120)):
+        k = 2 if i % 3 == 2 else 1
+        exs = []
+        for j in range(k):
+            a_cls = [rng.choice(TOP_OF_RANGE), rng.choice(AT_OR_ABOVE_N), "bits-128", rng.choice(list(classes))][i % 4] if j == 0 else "bits-128"
+            exs.append(draw_exchange(rng, classes, a_cls=a_cls, b_cls=rng.choice(["bits-256", "bits-256", "bits-128", "tiny"]), wrong=(i % 7 == 6), inject="subclass" if a_cls != "bits-128" else None))
+        phases = {ph: {str(j): some(rng.randrange(0, 4)) for j in range(k)} for ph in ("mid", "after", "end")}
+        if not any(phases[ph][str(j)] for ph in phases for j in range(k)):
+            phases["end"]["0"] = some(2)
+        plan.append(dict({"stream": "gen-history", "exchanges": exs}, **phases))
+    for case in plan:
+        try:
+            problems, judged, reach = play_generators(case)
+        except Exception as e:  # noqa: BLE001
+            problems, judged, reach = [("gen-history/crash", f"could not be played: {type(e).__name__}: {e}")], 0, 0
+        ctx.evaluations += max(judged, 1)
+        ctx.dist["gen-history:runs"] += 1
+        ctx.dist["gen-history:calls-judged"] += judged
+        ctx.dist["gen-history:client-reachable"] += reach
+        for e in case["exchanges"]:
+            ctx.dist["gen-history:a:" + e["a_class"]] += 1
+        ctx.nontrivial.add(("gen-history", tuple(e["a_class"] for e in case["exchanges"]), tuple(tuple(o[0] for o in case[ph][str(j)]) for ph in ("mid", "after", "end") for j in range(len(case["exchanges"])))))
+        seen = set()
+        for sig, what in problems:
+            if sig not in seen:
+                seen.add(sig)
+                ctx.violation(sig, what, case)
+
+
+
 def run(ctx: Ctx, driver: Driver):
     rng = ctx.rng
     rb = lambda n: bytes(rng.randrange(256) for _ in range(n))  # noqa: E731
@@ -687,30 +1235,26 @@ def run(ctx: Ctx, driver: Driver):
     vcases, vouts, vlines = [], [], []
     pins = ["031-45-154", "111-22-333", "000-00-000", "987-65-432"]
 
-    def one(pin_acc, pin_ctl, salt, b, a_bytes, kind):
-        srv, c, A_b, M1, K, Bb, lead = exchange(ctx, pin_acc, pin_ctl, salt, b, a_bytes)
+    def one(pin_acc, pin_ctl, salt, b, a_bytes, kind, inject="urandom"):
+        case = {"stream": "client", "kind": kind, "pin_acc": pin_acc, "pin_ctl": pin_ctl, "salt": hx(salt), "b": str(b), "a": hx(a_bytes)}
+        if inject != "urandom":
+            case["inject"] = inject
+        try:
+            srv, c, A_b, M1, K, Bb, lead = exchange(ctx, pin_acc, pin_ctl, salt, b, a_bytes, inject=inject)
+        except Exception as e:  # noqa: BLE001 - a valid exchange the client cannot run at all
+            ctx.evaluations += 1
+            ctx.violation("client/exception", f"the client cannot run this exchange: {type(e).__name__}: {e}", case)
+            return None
         ctx.evaluations += 1
         a = int.from_bytes(a_bytes, "big")
-        case = {"stream": "client", "kind": kind, "pin_acc": pin_acc, "pin_ctl": pin_ctl, "salt": hx(salt), "b": str(b), "a": hx(a_bytes)}
         ctx.nontrivial.add((kind, tuple(sorted(k for k, v in lead.items() if v)), pin_acc == pin_ctl))
         for k, v in lead.items():
             if v:
                 ctx.dist["leading-zero:" + k] += 1
-        right = pin_acc == pin_ctl
-        if A_b != refacc.PAD(pow(refacc.G, a, refacc.N3072)):
-            ctx.violation("client/A", "client public value is not PAD(g^a mod N)", case)
-        if right:
-            if M1 != srv.M1:
-                ctx.violation("client/M1", f"accessory rejects the client proof (leading zeros: {lead})", case)
-            if K != srv.K:
-                ctx.violation("client/K", f"session keys differ (leading zeros: {lead})", case)
-            if not c.verify_servers_proof_bytes(srv.M2):
-                ctx.violation("client/M2-rejected", f"client rejects the accessory's correct proof (leading zeros: {lead})", case)
-        else:
-            if M1 == srv.M1:
-                ctx.violation("client/wrong-code-accepted", "a wrong setup code produced a proof the accessory accepts", case)
-            if c.verify_servers_proof_bytes(srv.M2):
-                ctx.violation("client/wrong-code-M2", "client with a wrong code accepts the accessory's proof", case)
+        try:
+            client_oracles(ctx, case, srv, c, A_b, M1, K, lead)
+        except Exception as e:  # noqa: BLE001
+            ctx.violation("client/exception", f"checking the accessory's proof raises {type(e).__name__}: {e}", case)
         cases.append(case)
         outs.append(f"{hx(A_b)} {hx(K)} {hx(M1)}")
         lines.append(f"srp.client {hx(b'Pair-Setup')} {hx(pin_ctl.encode())} {hx(salt)} {hx(Bb)} {a}")
@@ -718,9 +1262,12 @@ def run(ctx: Ctx, driver: Driver):
         return srv, c, Bb, a
 
     def verify_case(srv, c, pin_ctl, salt, Bb, a, M, want, kind):
-        got = c.verify_servers_proof_bytes(M)
         ctx.evaluations += 1
         case = {"stream": "verify", "kind": kind, "M": hx(M)}
+        try:
+            got = c.verify_servers_proof_bytes(M)
+        except Exception as e:  # noqa: BLE001
+            return ctx.violation("verify/exception", f"verify_servers_proof_bytes({kind}) raises {type(e).__name__}: {e}", case)
         if want is not None and got != want:
             ctx.violation("verify/" + kind, f"verify_servers_proof_bytes({kind}) = {got}, expected {want}", case)
         ctx.nontrivial.add(("verify", kind, got))
@@ -743,20 +1290,25 @@ def run(ctx: Ctx, driver: Driver):
             if lead0[name][:nz] != bytes(nz):
                 raise RuntimeError(f"corpus/C02 entry does not have the leading zero it claims ({kd}): {c}")
         tag = "corpus-" + "+".join(c["kinds"])
-        s2, c2, Bb2, a2 = one(c["pin"], c["pin"], salt, b, ab, tag)
-        verify_case(s2, c2, c["pin"], salt, Bb2, a2, s2.M2, True, "correct-leading-zero")
-        if s2.M2[0] == 0:
-            verify_case(s2, c2, c["pin"], salt, Bb2, a2, s2.M2.lstrip(b"\0"), True, "leading-zero-stripped")
-        m = bytearray(s2.M2)
-        m[-1] ^= 1
-        verify_case(s2, c2, c["pin"], salt, Bb2, a2, bytes(m), False, "bitflip")
+        r = one(c["pin"], c["pin"], salt, b, ab, tag)
+        if r is not None:
+            s2, c2, Bb2, a2 = r
+            verify_case(s2, c2, c["pin"], salt, Bb2, a2, s2.M2, True, "correct-leading-zero")
+            if s2.M2[0] == 0:
+                verify_case(s2, c2, c["pin"], salt, Bb2, a2, s2.M2.lstrip(b"\0"), True, "leading-zero-stripped")
+            m = bytearray(s2.M2)
+            m[-1] ^= 1
+            verify_case(s2, c2, c["pin"], salt, Bb2, a2, bytes(m), False, "bitflip")
         through_generators(ctx, c["pin"], salt, b, ab, tag)
         ctx.dist["corpus"] += 1
     n = ctx.budget(60, 1200)
     for i in range(n):
         pin = rng.choice(pins)
         salt = rng.choice([rb(16), bytes(16), b"\0" + rb(15), b"\0\0\0" + rb(13)])
-        srv, c, Bb, a = one(pin, pin, salt, int.from_bytes(rb(32), "big"), rb(16), "honest")
+        r = one(pin, pin, salt, int.from_bytes(rb(32), "big"), rb(16), "honest")
+        if r is None:
+            continue
+        srv, c, Bb, a = r
         if i % 6 == 0:
             verify_case(srv, c, pin, salt, Bb, a, srv.M2, True, "correct")
             verify_case(srv, c, pin, salt, Bb, a, b"\0" + srv.M2, True, "zero-prepended")
@@ -769,6 +1321,47 @@ def run(ctx: Ctx, driver: Driver):
     for i in range(ctx.budget(15, 400)):
         p1, p2 = rng.sample(pins, 2)
         one(p1, p2, rb(16), int.from_bytes(rb(32), "big"), rb(16), "wrong-code")
+    # ---- the whole range of ephemeral secrets (the quantifier says ALL client and server secrets, not the size the
+    # library happens to draw), setup codes and salts of every shape; the client's secret injected the way the tests do
+    import time
+    classes = secret_classes()
+    t_wide = time.time()
+
+    def wide(a_cls, b_cls, wrong=False, gen=False):
+        pin = draw_pin(rng)
+        pin_ctl = other_pin(rng, pin) if wrong else pin
+        salt, a, b = draw_salt(rng), classes[a_cls](rng), classes[b_cls](rng)
+        kind = f"wide-a:{a_cls}-b:{b_cls}"
+        ctx.dist["wide:a:" + a_cls] += 1
+        ctx.dist["wide:b:" + b_cls] += 1
+        ctx.dist["wide:" + ("wrong-code" if wrong else "right-code")] += 1
+        r = one(pin, pin_ctl, salt, b, min_bytes(a), kind, inject="subclass")
+        if r is not None and not wrong:
+            verify_case(r[0], r[1], pin_ctl, salt, r[2], r[3], r[0].M2, True, "correct")
+            m = bytearray(r[0].M2)
+            bit = rng.randrange(512)
+            m[bit // 8] ^= 1 << (bit % 8)
+            verify_case(r[0], r[1], pin_ctl, salt, r[2], r[3], bytes(m), False, "bitflip")
+        if gen and not wrong:
+            through_generators(ctx, pin, salt, b, min_bytes(a), kind, inject="subclass")
+    names = list(classes)
+    gen_at = rng.randrange(2)
+    for i, (a_cls, b_cls) in enumerate([("N-2", "bits-256"), (rng.choice(AT_OR_ABOVE_N), "bits-256"), ("N-1", "bits-128"), ("one", "bits-256"), ("unreduced-A", "bits-256"),
+                                        ("N-minus-1024-bits", "bits-256"), (rng.choice(TOP_OF_RANGE), "tiny")]):
+        wide(a_cls, b_cls, gen=(i == gen_at))
+    for _ in range(ctx.budget(4, 160)):
+        wide(rng.choice(names), rng.choice(["bits-256", "bits-256", "bits-128", "tiny"]), gen=ctx.thorough() and rng.random() < 0.2)
+    for _ in range(ctx.budget(4, 120)):
+        wide(rng.choice(["bits-128", "bits-128", "bits-256", "tiny"]), rng.choice(names))
+    for _ in range(ctx.budget(2, 80)):
+        wide(rng.choice(names), rng.choice(names))
+    for _ in range(ctx.budget(2, 60)):
+        wide(rng.choice(names), rng.choice(["bits-256", "bits-128"]), wrong=True)
+    # ---- histories of accessor calls on one client object, and on the client the pair-setup generators leave behind
+    t_hist = time.time()
+    accessor_histories(ctx)
+    generator_histories(ctx)
+    ctx.notes.append(f"wall time of the added streams: wide secrets {t_hist - t_wide:.1f}s, accessor / generator histories {time.time() - t_hist:.1f}s")
     # ---- directed search for the 1-in-256 leading-zero cases
     g, N = refacc.G, refacc.N3072
     found = {"A": None, "B": None}
@@ -795,7 +1388,7 @@ def run(ctx: Ctx, driver: Driver):
     # S, M1, M2, K leading zero: draw exchanges until hit (each costs a few modexps)
     need = {"S", "M1", "M2", "K"}
     tries = 0
-    while need and tries < ctx.budget(700, 4000):
+    while need and tries < ctx.budget(150, 4000):   # quick: the committed corpus (run first) holds every leading-zero class deterministically
         tries += 1
         salt = rb(16)
         b = int.from_bytes(rb(32), "big")
@@ -807,10 +1400,12 @@ def run(ctx: Ctx, driver: Driver):
         if hit:
             through_generators(ctx, "031-45-154", salt, b, ab, "directed-" + "".join(sorted(hit)) + "0")
         if hit - {"K"}:
-            s2, c2, Bb2, a2 = one("031-45-154", "031-45-154", salt, b, ab, "directed-" + "".join(sorted(hit)) + "0")
-            verify_case(s2, c2, "031-45-154", salt, Bb2, a2, s2.M2, True, "correct-leading-zero")
-            if "M2" in hit:
-                verify_case(s2, c2, "031-45-154", salt, Bb2, a2, s2.M2[1:], True, "leading-zero-stripped")
+            r = one("031-45-154", "031-45-154", salt, b, ab, "directed-" + "".join(sorted(hit)) + "0")
+            if r is not None:
+                s2, c2, Bb2, a2 = r
+                verify_case(s2, c2, "031-45-154", salt, Bb2, a2, s2.M2, True, "correct-leading-zero")
+                if "M2" in hit:
+                    verify_case(s2, c2, "031-45-154", salt, Bb2, a2, s2.M2[1:], True, "leading-zero-stripped")
         need -= hit
     if need:
         ctx.notes.append(f"directed search did not hit a leading zero in {sorted(need)} within {tries} exchanges this run")
@@ -827,6 +1422,20 @@ def replay(ctx, driver, c):
         return {"violations": [{"signature": s, "what": w} for s, w in problems], "outcomes": info["outcomes"]} if problems else None
     if c.get("stream") == "generators":
         sub = Ctx(ID, "quick", 0)
-        through_generators(sub, c["pin"], unhx(c["salt"]), int(c["b"]), unhx(c["a"]), c.get("kind", "replay"))
+        through_generators(sub, c["pin"], unhx(c["salt"]), int(c["b"]), unhx(c["a"]), c.get("kind", "replay"), inject=c.get("inject", "urandom"))
+        return sub.violations or None
+    if c.get("stream") == "history":
+        problems, _ = play_history(c)
+        return [{"signature": s, "what": w} for s, w in problems] or None
+    if c.get("stream") == "gen-history":
+        problems = play_generators(c)[0]
+        return [{"signature": s, "what": w} for s, w in problems] or None
+    if c.get("stream") == "client":
+        sub = Ctx(ID, "quick", 0)
+        try:
+            srv, cl, A_b, M1, K, Bb, lead = exchange(sub, c["pin_acc"], c["pin_ctl"], unhx(c["salt"]), int(c["b"]), unhx(c["a"]), inject=c.get("inject", "urandom"))
+            client_oracles(sub, c, srv, cl, A_b, M1, K, lead)
+        except Exception as e:  # noqa: BLE001
+            sub.violation("client/exception", f"{type(e).__name__}: {e}", c)
         return sub.violations or None
     return None
